@@ -42,7 +42,9 @@ theorem C13_frame (h : Handler) (s s' : ExecState) (f : FrameIn)
     | some id =>
       simp only [hn, h1, h2, h3, h4, if_false] at he
       split at he
-      · cases he; exact ⟨rfl, rfl, rfl, rfl, rfl, rfl, ⟨[], by simp, by simp⟩, fun _ h => h⟩
+      · split at he
+        · cases he; exact ⟨rfl, rfl, rfl, rfl, rfl, rfl, ⟨[], by simp, by simp⟩, fun _ h => h⟩
+        · cases he; exact ⟨rfl, rfl, rfl, rfl, rfl, rfl, ⟨[], by simp, by simp⟩, fun _ h => h⟩
       · cases he
         refine ⟨rfl, rfl, rfl, rfl, rfl, rfl, ⟨[_], rfl, by simp⟩, ?_⟩
         intro i hi
